@@ -11,6 +11,7 @@
   Not proved: the analytic clause |ln|H| − ln(K/|A|^s)| ≤ 0.001 neper, decided on
   every run against A(z) built by polynomial multiplication in the driver.
 -/
+import Jb.Proofs.Lti
 import Jb.Proofs.Cepstrum
 import Jb.Proofs.LspStab
 import Jb.Proofs.LspPoly
@@ -78,5 +79,13 @@ theorem well_separated_unchanged (v : List K) (h : LspStable v) : checkLspStabil
 theorem lpc_polynomial (b : Bool) (g : K) (lsp : List K) :
     lsp2lpc ⟨b, true⟩ (g :: lsp) = lspRefPoly lsp :=
   lsp2lpc_poly b g lsp
+
+/-- **The pulse response determines the filter** (LSP / MGLSA family): with frozen coefficients the cascade of
+    `stage` sections is linear and time-invariant, so its output on any excitation is the convolution of the
+    excitation with the response to one pulse. -/
+theorem response_is_convolution (alpha : K) (c : List K) (stage : Nat) (xs : List K) (n : Nat) (hn : n < xs.length) :
+    (mglsaRun alpha c (mglsaInit stage c.length) xs).getD n 0 =
+      (Finset.range (n + 1)).sum fun k => (mglsaPulse alpha c stage xs.length).getD k 0 * xs.getD (n - k) 0 :=
+  mglsaRun_convolution alpha c stage xs n hn
 
 end Jb.C13
